@@ -116,9 +116,10 @@ def _run(ctx):
         return
     swap = pr.swap_handler
     body = swap.body
-    opts = [i - 1 for i in range(1, g.body.arg_count + 1) if re.match(r"^std::option::Option<cosmwasm_std::\S*Decimal>$", g.body.locals[i]["ty"])]
-    assets = [i - 1 for i in range(1, g.body.arg_count + 1) if g.body.locals[i]["ty"] == ctx.N.Asset]
-    u8s = [i - 1 for i in range(1, g.body.arg_count + 1) if g.body.locals[i]["ty"] == "u8"]
+    gty = lambda i: common.strip_ty(g.body.locals[i]["ty"])        # `&Asset` and `Asset` are the same parameter
+    opts = [i - 1 for i in range(1, g.body.arg_count + 1) if re.match(r"^std::option::Option<cosmwasm_std::\S*Decimal>$", gty(i))]
+    assets = [i - 1 for i in range(1, g.body.arg_count + 1) if gty(i) == ctx.N.Asset]
+    u8s = [i - 1 for i in range(1, g.body.arg_count + 1) if gty(i) == "u8"]
     sp_i = common.param_index_of_type(g, r"^cosmwasm_std::\S*Uint128$")
     if len(opts) != 2 or len(assets) != 2 or len(u8s) != 2 or sp_i is None:
         g1.fail("C10.G1:anchor", g.path, g.span, "anchor-missing: guard parameters (2 Option<Decimal>, 2 Asset, Uint128, 2 u8)")
